@@ -330,6 +330,10 @@ class Gen:
     def coll(self, env):
         c = self.rng.choice(list(COLLS))
         bank = self.rng.choice({"As": ["ba", "ba2"], "Bs": ["bb"]}[c])
+        if c == "Bs" and self.rng.random() < 0.15:
+            # bank names are arbitrary strings: quote, apostrophe, backslash, question marks (the name also lands in the
+            # text of First()'s error message)
+            bank = self.rng.choice(ODD_BANKS)
         self.banks[bank] = c
         ev = next(n for n, t in env if t == "event")
         self.op("coll")
@@ -776,6 +780,9 @@ class Gen:
         if r.random() < 0.5:
             inner = {"k": "Count", "s": inner} if r.random() < 0.5 else inner
         return {"k": "Select", "s": {"k": "Select", "s": ds, "x": e, "f": s}, "x": js, "f": inner}, ["col1"], "two_step"
+
+
+ODD_BANKS = ['q"z', "q'z", "q\\z", "q??/z"]
 
 
 def banks_used(q: Any, acc: Optional[Dict[str, str]] = None) -> Dict[str, str]:
